@@ -3,7 +3,7 @@ import json
 import os
 from common import Check, Machinery, run_tlc, sharded_events, scratch_root
 
-CLAUSES = {"C16": {"zero_not_representable", "product_not_representable", "wrong_implementation_kind",
+CLAUSES = {"C16": {"earlier_result_changed_by_a_later_call", "zero_not_representable", "product_not_representable", "wrong_implementation_kind",
                    "negated_most_negative_code_not_representable", "alphabet_wider_than_reported_bits"},
            "C17": {"sum_not_representable", "adder_sum_not_representable", "merge_add_sum_not_representable",
                    "merge_output_does_not_contain_operand"}}
@@ -57,7 +57,9 @@ def run(pid, tier, seed):
         continue
       if cl not in mine:
         continue
-      if ev["op"] == "mul":
+      if ev["op"] == "alias":
+        ident = {"clause": cl}
+      elif ev["op"] == "mul":
         both = opclass(ev["w"]) + " " + opclass(ev["x"])
         ident = {"clause": cl, "kind": ev["kind"], "po2_max_value_le_1": "max_value<=1" in both,
                  "relu_1_1": "relu(1,1)" in both,
@@ -76,7 +78,7 @@ def run(pid, tier, seed):
         ident = {"clause": cl, "operand_whose_max_is_a_power_of_two": pm(ev["a"]) or pm(ev["b"])}
       chk.violation(ident, {"clause": cl, "event": ev})
   for ev in events:
-    if (pid == "C16") == (ev["op"] == "mul"):
+    if (pid == "C16") == (ev["op"] in ("mul", "alias")) and ev["op"] != "alias":
       chk.key(json.dumps(ev, sort_keys=True))
   chk.sample(next(e for e in events if (pid == "C16") == (e["op"] == "mul")))
   chk.cov["exhaustive"] = True
